@@ -288,6 +288,14 @@ class ExprMixin(object):
         try:
             value = ast.literal_eval(cexpr)
         except Exception:
+            # set([...]) / frozenset([...]) / tuple([...]) of literals: a constant collection (used for `in` only)
+            if isinstance(cexpr, ast.Call) and isinstance(cexpr.func, ast.Name) and cexpr.func.id in ("set", "frozenset", "tuple") \
+                    and len(cexpr.args) == 1 and not cexpr.keywords:
+                try:
+                    value = list(ast.literal_eval(cexpr.args[0]))
+                except Exception:
+                    raise Undecided("non-literal class constant in %s" % owner)
+                return st, self.lit_value(st, value)
             raise Undecided("non-literal class constant in %s" % owner)
         return st, self.lit_value(st, value)
 
